@@ -11,6 +11,55 @@ func init() {
 	vHarnesses["H_C16_mismatch"] = H_C16_mismatch
 	vHarnesses["H_C16_truncate_hybrid"] = H_C16_truncate_hybrid
 	vHarnesses["H_C16_segment"] = H_C16_segment
+	vHarnesses["H_C16_segment_load"] = H_C16_segment_load
+}
+
+// the loading step itself (segmentMetadata.getIndex, the unit the store's searches go through): for the
+// same damaged segments as H_C16_segment every attempt to load reports an error and nothing is cached
+func H_C16_segment_load() {
+	vStoreTemplates = []int{0, 3}[vChoose("templates", 2)]
+	dir := vTempDir()
+	s, err := OpenPersistentHybridIndex(vFreshStoreCfg(dir, false))
+	vAssert(err == nil, "open-ok")
+	for _, d := range vStoreDocs[:2] {
+		vAssert(s.AddWithID(d.id, []float32{d.vec}, d.text, map[string]interface{}{"c": d.c}) == nil, "add-ok")
+	}
+	vAssert(s.Flush() == nil, "flush-ok")
+	vAssert(s.Close() == nil, "close-ok")
+	kinds := []string{"hybrid", "vector", "text", "metadata"}
+	if vStoreTemplates == 3 {
+		kinds = kinds[:2]
+	}
+	kind := kinds[vChoose("file", len(kinds))]
+	vTag("file=" + kind)
+	path := dir + "/" + vSegName(kind, 1)
+	size := vFSSize(path)
+	attempt := func() {
+		cfg := vFreshStoreCfg(dir, false)
+		seg := newSegmentMetadata(1, dir+"/"+vSegName("hybrid", 1), dir+"/"+vSegName("vector", 1), dir+"/"+vSegName("text", 1), dir+"/"+vSegName("metadata", 1))
+		for try := 0; try < 3; try++ {
+			ix, gerr := seg.getIndex(cfg.VectorIndexTemplate, cfg.TextIndexTemplate, cfg.MetadataIndexTemplate)
+			vAssert(gerr != nil && ix == nil, "every-load-attempt-of-a-damaged-segment-reports-an-error")
+			vAssert(seg.cachedIndex == nil, "damaged-segment-is-not-cached")
+		}
+	}
+	if vChoose("missing", 2) == 1 {
+		vFSRemove(path)
+		attempt()
+		vCover("missing")
+		return
+	}
+	if !vSymbolic() {
+		orig := vFSReadAll(path)
+		for p := 0; p < len(orig); p++ {
+			vFSWriteAll(path, orig[:p])
+			attempt()
+		}
+		return
+	}
+	vFSTruncate(path, vChoose("prefix", size))
+	attempt()
+	vCover("truncated")
 }
 
 // a segment with a truncated, empty or missing component file contributes nothing to search results:
